@@ -32,6 +32,8 @@ def check_case(case, ctx):
         t = gen.place_trace(case["trace"], org, unit)
         c = gen.scale_config(cfg, unit)
         matcher = base.mk_matcher(base.mk_inmem(g, latlon=True), c)
+        if case.get("decoy"):
+            base.pkg(matcher.match, base.to_path(gen.place_trace(case["decoy"], org, unit)), clause="decoy-raised")
         states, idx = base.pkg(matcher.match, base.to_path(t))
         loose = base.mk_matcher(base.mk_inmem(g, latlon=True), dict(c, max_dist=None, max_dist_init=None, min_prob_norm=None))
         base.pkg(loose.match, base.to_path(t))
@@ -92,6 +94,7 @@ def strategy(tier):
             cfg["max_dist"] = draw(st.sampled_from([0.3, 0.5, 1.0, 1.5, 2.0]))
             cfg["min_prob_norm"] = draw(st.sampled_from([None, 0.01, 0.1, 0.5, 0.8]))
             cfg["max_dist_init"] = draw(st.sampled_from([None, 0.3, 1.0, 2.5]))
+        case = draw(common.maybe_decoy(case))
         case["metric"] = draw(st.sampled_from(["planar", "planar", "planar", "latlon"]))
         if case["metric"] == "latlon":
             case["origin"] = draw(gen.origin())
